@@ -144,9 +144,9 @@ def statement_digest(path):
 
 
 def coq_check(ctx):
-    """Build the development needed by this property, re-check its Props file, parse Print Assumptions."""
+    """Build the development needed by this property, re-check its Props file(s), parse Print Assumptions."""
     spec = ctx.spec["coq"]
-    props = spec["props"]               # e.g. "Props/C12.v"
+    props_list = spec["props"] if isinstance(spec["props"], list) else [spec["props"]]
     err = coq_makefile()
     if err:
         ctx.problems.append(Problem("build", "coq_makefile", {"log": err[-2000:]}))
@@ -154,17 +154,19 @@ def coq_check(ctx):
     bad = audit_sources()
     if bad:
         ctx.problems.append(Problem("audit", "forbidden construct in the Coq development", {"lines": bad[:20]}))
-    vo = props[:-2] + ".vo"
-    targets = [vo] + [e[:-2] + ".vo" for e in spec.get("extract", [])]
-    for f in (vo, props[:-2] + ".glob"):
-        try:
-            os.remove(os.path.join(COQ, f))
-        except FileNotFoundError:
-            pass
-    cmd = "timeout 3000 make -j16 %s" % " ".join(targets)
+    targets = [e[:-2] + ".vo" for e in spec.get("extract", [])]
+    for props in props_list:
+        vo = props[:-2] + ".vo"
+        targets.append(vo)
+        for f in (vo, props[:-2] + ".glob"):
+            try:
+                os.remove(os.path.join(COQ, f))
+            except FileNotFoundError:
+                pass
+    # -j1 at the end so that the Props files are compiled one after another and their output is not interleaved
+    cmd = "timeout 3000 make -j16 %s" % " ".join(t for t in targets)
     rc, out = sh(cmd, cwd=COQ, timeout=3100)
     ctx.cov["checker_cmd"] = "cd coq && coq_makefile -f _CoqProject ... -o Makefile && " + cmd + "  (coqc 8.16.1, full .vo build)"
-    names = re.findall(r"Print Assumptions\s+([\w.']+)\s*\.", open(os.path.join(COQ, props)).read())
     expected = spec["theorems"]
     ctx.cov["obligations"] = len(expected)
     if rc != 0:
@@ -172,32 +174,43 @@ def coq_check(ctx):
         ctx.problems.append(Problem("proof", "Coq build failed" + (" at %s:%s" % (m.group(1), m.group(2)) if m else ""),
                                     {"log": out[-3000:]}))
         return
-    # split the output into one block per Print Assumptions
-    blocks = []
-    cur = None
-    for line in out.split("\n"):
-        if line.startswith("Closed under the global context"):
-            blocks.append([])
-            cur = None
-        elif line.startswith("Axioms:"):
-            cur = []
-            blocks.append(cur)
-        elif cur is not None:
-            if re.match(r"^(COQC|COQDEP|make)", line) or line.strip() == "":
+    by_name = {}
+    for props in props_list:
+        # re-run the Props file alone to get its Print Assumptions output unmixed
+        try:
+            os.remove(os.path.join(COQ, props[:-2] + ".vo"))
+        except FileNotFoundError:
+            pass
+        rc, out = sh("timeout 3000 make %s" % (props[:-2] + ".vo"), cwd=COQ, timeout=3100)
+        if rc != 0:
+            ctx.problems.append(Problem("proof", "Coq build of %s failed" % props, {"log": out[-3000:]}))
+            return
+        names = re.findall(r"Print Assumptions\s+([\w.']+)\s*\.", open(os.path.join(COQ, props)).read())
+        blocks = []
+        cur = None
+        for line in out.split("\n"):
+            if line.startswith("Closed under the global context"):
+                blocks.append([])
                 cur = None
-            elif re.match(r"^\S", line):
-                cur.append(line.split(":")[0].strip())
-    if len(blocks) != len(names):
-        ctx.problems.append(Problem("proof", "Print Assumptions output could not be matched to theorems",
-                                    {"names": names, "blocks": len(blocks), "log": out[-2000:]}))
-        return
-    by_name = dict(zip(names, blocks))
+            elif line.startswith("Axioms:"):
+                cur = []
+                blocks.append(cur)
+            elif cur is not None:
+                if re.match(r"^(COQC|COQDEP|make)", line) or line.strip() == "":
+                    cur = None
+                elif re.match(r"^\S", line):
+                    cur.append(line.split(":")[0].strip())
+        if len(blocks) != len(names):
+            ctx.problems.append(Problem("proof", "Print Assumptions output of %s could not be matched to theorems" % props,
+                                        {"names": names, "blocks": len(blocks), "log": out[-2000:]}))
+            return
+        by_name.update(dict(zip(names, blocks)))
     allowed = set(spec.get("allow_axioms", []))
     discharged = 0
     thm_report = {}
     for t in expected:
         if t not in by_name:
-            ctx.problems.append(Problem("proof", "theorem %s missing from %s" % (t, props)))
+            ctx.problems.append(Problem("proof", "theorem %s missing from %s" % (t, props_list)))
             continue
         extra = [a for a in by_name[t] if a.split(".")[-1] not in allowed and a not in allowed]
         thm_report[t] = by_name[t] or "closed under the global context"
@@ -211,16 +224,18 @@ def coq_check(ctx):
     lock = {}
     if os.path.exists(props_lock_path()):
         lock = json.load(open(props_lock_path()))
-    dg = statement_digest(os.path.join(COQ, props))
-    if lock.get(props) != dg:
-        ctx.problems.append(Problem("proof", "pinned statements of %s differ from props.lock" % props,
-                                    {"have": dg, "locked": lock.get(props)}))
+    for props in props_list:
+        dg = statement_digest(os.path.join(COQ, props))
+        if lock.get(props) != dg:
+            ctx.problems.append(Problem("proof", "pinned statements of %s differ from props.lock" % props,
+                                        {"have": dg, "locked": lock.get(props)}))
 
 
 def coqchk(ctx):
     """Thorough tier: independent re-check of the property's compiled theorems."""
-    props = ctx.spec["coq"]["props"]
-    mod = "Elvis." + props[:-2].replace("/", ".")
+    pl = ctx.spec["coq"]["props"]
+    pl = pl if isinstance(pl, list) else [pl]
+    mod = " ".join("Elvis." + props[:-2].replace("/", ".") for props in pl)
     rc, out = sh("timeout 3000 coqchk -silent -o -Q . Elvis %s" % mod, cwd=COQ, timeout=3100)
     ax = []
     seen = False
